@@ -856,7 +856,7 @@ func (i *interpreter) symSubstring(x, lo, hi value) (value, bool) {
 	} else {
 		i.ensureModel()
 		L = i.evalModel(lenT)
-		res, _ := i.solver.Check(c.Ne(lenT, c.BV(L, 64)), false, nil)
+		res, _ := i.solverCheck(c.Ne(lenT, c.BV(L, 64)), false, nil)
 		if res != smt.Unsat {
 			return nil, false
 		}
@@ -867,6 +867,10 @@ func (i *interpreter) symSubstring(x, lo, hi value) (value, bool) {
 	// bounds: 0 <= lo && lo+L <= n
 	inb := c.Bin(smt.OBvUle, lt, c.BV(uint64(n)-L, 64))
 	if !i.truth(normBool(inb)) {
+		if debugSlow {
+			fmt.Fprintf(os.Stderr, "symSubstring out of range: lo=%s hi=%v at %s\n", lt, hi, i.where())
+			os.WriteFile(fmt.Sprintf("/tmp/oob_%d.smt2", os.Getpid()), []byte(i.solver.Script(nil)), 0644)
+		}
 		panic(targetPanic{i.runtimeErr(fmt.Sprintf("slice bounds out of range [symbolic:+%d] with length %d", L, n))})
 	}
 	bs := strBytes(x)
